@@ -17,6 +17,7 @@ import (
 	"strconv"
 	"strings"
 	"sync"
+	"sync/atomic"
 	"testing"
 
 	"pgregory.net/rapid"
@@ -99,7 +100,9 @@ func Check(t *testing.T, checks int, prop func(*rapid.T)) {
 	} else {
 		h := fnv.New64a()
 		h.Write([]byte(t.Name()))
-		seed := Seed()*1000003 + uint64(Shard())*7919 + h.Sum64()%1000
+		// several Check calls inside one test explore different streams
+		seq := atomic.AddUint64(&checkSeq, 1) - 1
+		seed := Seed()*1000003 + uint64(Shard())*7919 + h.Sum64()%1000 + seq*104729
 		if seed == 0 {
 			seed = 1
 		}
